@@ -211,6 +211,8 @@ func runC15(r *Run) {
 	add(&ref.Gate{Kind: "Exponentiation", PowerBits: 13})
 	add(cosetGateSpec(2, 2))
 	add(cosetGateSpec(3, 3))
+	add(cosetGateSpec(3, 5)) // last interpolation chunk is cut short
+	add(cosetGateSpec(4, 5))
 	if r.Thorough() {
 		for _, n := range []uint64{2, 3, 7, 19, 20} {
 			add(&ref.Gate{Kind: "Arithmetic", NumOps: n})
